@@ -246,6 +246,19 @@ def child(job):
                     pt.append(f"unmarshaller({src})({p!r}) is not its input")
                 if m(p) is not p:
                     pt.append(f"marshaller({src})({p!r}) is not its input")
+        # an UNPARAMETERISED container: the types of its members cannot be resolved, every member is handed on as it is (and none is lost)
+        bare = {"list": [s, 1, "a"], "tuple": (s, 1, "a"), "typing.List": [s, 1, "a"], "typing.Tuple": (s, 1, "a"), "set": {s, 1}, "frozenset": frozenset({s, 1}),
+                "dict": {"k": s, "j": 1}, "typing.Dict": {"k": s, "j": 1}}
+        if src in bare:
+            v = bare[src]
+            for label, f in (("unmarshaller", u), ("marshaller", m)):
+                try:
+                    r = f(v)
+                    got = list(r.values()) if isinstance(r, dict) else list(r)
+                    if len(got) != len(v) or not any(e is s for e in got):
+                        pt.append(f"{label}({src})({v!r}) lost or replaced members: {r!r}")
+                except Exception as e:  # noqa: BLE001
+                    pt.append(f"{label}({src})({v!r}) raised {type(e).__name__}: {e}"[:160])
         # a resolvable structured class is NOT a pass-through position: the routine must build the class
         if src in ("DC", "CV", "DCall"):
             try:
